@@ -26,8 +26,11 @@ namespace BBox
 /-- `contains3` on a `Coord` -/
 def has (b : BBox) (c : Coord) : Bool := b.contains3 c.1 c.2.1 c.2.2
 
-/-- `iter_coords` with the level attached: row-major `TileCoord3`s -/
-def coords3 (b : BBox) : List Coord := b.iterCoords.map fun c => (c.1, c.2, b.level)
+/-- `iter_coords` with the level attached: row-major `TileCoord3`s.  (itertools'
+    `cartesian_product` yields nothing at once when either range is empty; the guard keeps the
+    model from walking `2^31` rows of an x-empty box – the list is the same.) -/
+def coords3 (b : BBox) : List Coord :=
+  if b.isEmpty then [] else b.iterCoords.map fun c => (c.1, c.2, b.level)
 
 /-- boxes as the constructors / `intersect_bbox` / `set_empty` / `include_coord` produce them:
     `level ≤ 31` and the maxima inside the level (minima are unconstrained: all three empty
